@@ -7,7 +7,8 @@
 TYPE_ALIAS = {"IntegratorProtocol": "AbstractIntegrator", "IntegratorType": "function"}
 
 ASSUMPTIONS = [
-    "C04: an integrator asked for end time T returns, on success, a TimeCourse ending at T on its own clock (tc_end(result.value) == req_end(result))",
+    "C04: an integrator asked for end time T returns, on success, a NEW TimeCourse ending at T on its own clock (tc_end = last element of its time vector; proved for the shipped Scipy integrator in contracts/scipy_integrator.py)",
+    "C04: pandas / numpy facts used by _handle_simulation_results: DataFrame(index=a) has last index label a[-1]; frame.iloc[1:, :] keeps the last label (frames have at least two rows); (a += r)[-1] = a[-1] + r; Model.get_parameter_values does not raise right after a successful integration",
     "C04: result frames are immutable; frame.index[-1] is the ghost last_time of the frame",
     "C04: that solve_ivp returns the ODE solution to tolerance is assumed; trajectories are checked by the bounded stand-in",
 ]
@@ -19,6 +20,17 @@ def reached(s):
 
 def shift(s):
     return 0.0 if s._time_shift is None else s._time_shift
+
+
+def tc_last(tc):
+    # the ghost tc_end of a TimeCourse IS the last element of its time vector; the time
+    # course and its time vector are new objects made by the integrator (the simulator
+    # shifts the vector in place)
+    return (
+        tc_end(tc) == v_last(as_type(as_type(tc, "TimeCourse").time, "Array"))
+        and fresh(tc)
+        and fresh(as_type(tc, "TimeCourse").time)
+    )
 
 
 def Inv(s):
@@ -36,15 +48,19 @@ class integrator_integrate:
     ensures = lambda self, t_end, steps, result: [
         has_type(result, "Result"),
         req_end(result) == t_end,
-        implies(has_type(result.value, "TimeCourse"), tc_end(result.value) == t_end),
+        implies(has_type(result.value, "TimeCourse"), tc_end(result.value) == t_end and tc_last(result.value)),
     ]
     modifies = lambda self, t_end, steps: [self]
 
 
 @contract("mxlpy.simulator:Simulator._handle_simulation_results")
 class handle_results:
-    trusted = "pandas frame construction (index shift, skip of the duplicated first row, parameter snapshot): assumed here, exercised by the bounded stand-in; its effect on the time axis is what C04's continuation rule needs"
-    requires = lambda self, result, skipfirst: Inv(self)
+    # proved (was assumed): the recorded frame's last index label is the time course's last
+    # point shifted back to absolute time; numpy / pandas facts: pyvc/lib_tp.py, lib_frame.py, lib_pd.py
+    opts = {"timepoints": True}
+    requires = lambda self, result, skipfirst: (
+        Inv(self) and has_type(result, "Result") and implies(has_type(result.value, "TimeCourse"), tc_last(result.value))
+    )
     ensures = lambda self, result, skipfirst: [
         Inv(self),
         self._time_shift is old(self._time_shift),
@@ -72,6 +88,9 @@ class handle_results:
         self._errors,
         maybe(self.variables),
         maybe(self.simulation_parameters),
+        field(self.model, "_cache"),
+        # `time += shift` updates the returned time vector in place (only a TimeCourse has one)
+        maybe(as_type(result.value, "TimeCourse").time if has_type(result.value, "TimeCourse") else None),
     ]
 
 
@@ -117,6 +136,7 @@ class simulate:
         self.integrator,
         maybe(self.variables),
         maybe(self.simulation_parameters),
+        field(self.model, "_cache"),
     ]
 
 
@@ -137,6 +157,13 @@ def protocol_ok(p):
 def end_of(p, t0, i):
     # absolute end of step i-1 (t0 before the first step)
     return t0 if i == 0 else t0 + row_secs(p, i - 1)
+
+
+@contract("mxlpy.model:Model.get_parameter_values")
+class model_get_parameter_values:
+    trusted = "reads (and may build) the model cache, bounded under C13; here only its frame is used, and it is assumed not to raise when called right after a successful integration of the same model (the cache has been built for that run)"
+    ensures = lambda self, result: True
+    modifies = lambda self: [field(self, "_cache")]
 
 
 @contract("mxlpy.model:Model.update_parameters")
@@ -206,7 +233,7 @@ class integrator_integrate_time_course:
     ensures = lambda self, time_points, result: [
         has_type(result, "Result"),
         req_end(result) == v_last(time_points),
-        implies(has_type(result.value, "TimeCourse"), tc_end(result.value) == v_last(time_points)),
+        implies(has_type(result.value, "TimeCourse"), tc_end(result.value) == v_last(time_points) and tc_last(result.value)),
     ]
     modifies = lambda self, time_points: [self]
 
@@ -249,6 +276,7 @@ class simulate_time_course:
         self.integrator,
         maybe(self.variables),
         maybe(self.simulation_parameters),
+        field(self.model, "_cache"),
     ]
 
 
@@ -323,7 +351,10 @@ class get_result:
 @contract("mxlpy.integrators.abstract:AbstractIntegrator.integrate_to_steady_state")
 class integrator_integrate_to_steady_state:
     trusted = "abstract method of the integrator protocol (the shipped Scipy implementation is verified under C15, contracts/steady_state.py): returns a Result"
-    ensures = lambda self, tolerance, rel_norm, result: has_type(result, "Result")
+    ensures = lambda self, tolerance, rel_norm, result: [
+        has_type(result, "Result"),
+        implies(has_type(result.value, "TimeCourse"), tc_last(result.value)),
+    ]
     modifies = lambda self, tolerance, rel_norm: [self]
 
 
@@ -364,4 +395,5 @@ class simulate_to_steady_state:
         self.integrator,
         maybe(self.variables),
         maybe(self.simulation_parameters),
+        field(self.model, "_cache"),
     ]
